@@ -5,7 +5,7 @@ Every function here is an *assumed contract* on third-party code (listed in evid
 import ast
 from fractions import Fraction
 import z3
-from .vals import (SV, Opt, Inf, Vec, Mat, Obj, SList, Forall, Exists, Func, Builtin, ClassRef, ExcClass, ModuleRef,
+from .vals import (SV, Opt, Inf, Vec, Mat, Obj, SList, Forall, Exists, Hyp, Func, Builtin, ClassRef, ExcClass, ModuleRef,
                    Unsupported, StrS, fresh, fresh_fun, to_frac, is_num)
 from .ops import term, boolterm, mk, is_scalar, is_real, UF
 
@@ -1608,10 +1608,18 @@ def s_implies(it, a, k):
         return True
     if isinstance(y, Exists):
         return Exists(y.lo, y.hi, y.body, it.ops.land(it.sbool(y.guard), it.sbool(x)))
+    if isinstance(y, Hyp):
+        return Hyp([x] + list(y.hyps), y.goal)
     if isinstance(y, Forall):
         inner = y
         return Forall(inner.lo, inner.hi, lambda *ii: s_implies(it, [x, inner.body(*ii)], {}), nvars=inner.nvars)
     return it.ops.lor(it.ops.lnot(it.sbool(x)), it.sbool(y))
+
+
+def s_given(it, a, k):
+    """given([h1, h2, ...], goal): goal under hypotheses that may be universally quantified"""
+    hyps, goal = a
+    return Hyp(list(hyps), goal)
 
 
 def s_ite(it, a, k):
@@ -1672,7 +1680,7 @@ def s_at(it, a, k):
 
 SPEC_BUILTINS = {
     'at': s_at,
-    'forall': s_forall, 'exists': s_exists, 'forall2': s_forall2, 'implies': s_implies, 'ite': s_ite, 'is_none': s_is_none,
+    'forall': s_forall, 'exists': s_exists, 'given': s_given, 'forall2': s_forall2, 'implies': s_implies, 'ite': s_ite, 'is_none': s_is_none,
     'spec_db2lin': s_db2lin, 'spec_lin2db': s_lin2db, 'iff': s_iff, 'mask_index': s_mask_index,
     'sort_perm': s_sort_perm,
 }
